@@ -9,8 +9,8 @@ LEVEL = "model_checking"
 # quick = 24 configurations / 1.6e5 states / 7.3e6 transitions (about 75 CPU-s), thorough = 66 configurations /
 # 1.07e6 states / 4.6e7 transitions (about 8 CPU-min); measured 19 s and 147 s wall on the shared 16-core machine.
 HARNESSES = [
-    dict(name="lht", src=["lht.c"], variant="asan", deadline={"quick": 300, "thorough": 1500}),
-    dict(name="cache", src=["cache.c"], variant="asan", deadline={"quick": 300, "thorough": 1500}),
+    dict(name="lht", src=["lht.c"], variant="asan", deadline={"quick": 300, "thorough": 1500}, fallback_cflags=["-DNO_WHITEBOX"]),
+    dict(name="cache", src=["cache.c"], variant="asan", deadline={"quick": 300, "thorough": 1500}, fallback_cflags=["-DNO_WHITEBOX"]),
 ]
 ASSUMPTIONS = [
     "bounds: key identities k0..k3, each with two equal-but-distinct key objects (A/B twins), values v0..v2, max_items 1..3, "
